@@ -20,13 +20,18 @@ def args_of(c, trackfile):
                       "--LinearRF", "true" if c["rf"] == "linear" else "false", "--verbose", "true" if c["verbose"] else "false"]
     if c["track"] is not None:
         a += ["--tracking", trackfile, "--FPTrack", c["track"]]
+    if c.get("start"):   # start from a results file written beforehand (an evolved distribution whose charge is not exactly one)
+        a += ["-i", STARTFILE[c.get("n", 16)]]
     if c.get("mod"):     # deterministic RF phase modulation (the modulation record is flushed in the output block)
         a += ["--RFPhaseModAmplitude", 0.01, "--RFPhaseModFrequency", 130000.0]
     return a
 
 
+STARTFILE = {}
+
+
 def phys_key(c):
-    return (c["renorm"], c["rf"], c.get("imp", "collimator"), c.get("n", 16), c.get("mod", 0))
+    return (c["renorm"], c["rf"], c.get("imp", "collimator"), c.get("n", 16), c.get("mod", 0), c.get("start", 0))
 
 
 def records(doc):
@@ -52,6 +57,12 @@ def run(res, tier):
     exe = pl.build.build_bin("plain")
     pl.warm(exe, [["-s", n] + BASE + IMP[i] + ["-n", 1] for i in IMP for n in (16, 15)], "c12warm")
     wd = pl.workdir("c12")
+    for n in (16, 15):
+        b0 = [x for i, x in enumerate(BASE) if not (x == "-T" or (i > 0 and BASE[i - 1] == "-T"))]
+        r0 = pl.run(exe, ["-s", n] + b0 + IMP["collimator"] + ["-n", 5, "--SavePhaseSpace", 1, "-T", 0.625], wd, out="start%d.h5" % n)
+        if r0["rc"] != 0 or not os.path.exists(r0["h5"]):
+            res.violate("C12/start-file-run-failed", "start%d.h5" % n, r0["log"][-300:], replay=dict(cmd=r0["cmd"]))
+        STARTFILE[n] = r0["h5"]
     trackfile = os.path.join(wd, "track.txt")
     with open(trackfile, "w") as f:
         f.write("0.5 0.3\n-1.2 0.8\n2.0 -1.5\n")
@@ -59,23 +70,27 @@ def run(res, tier):
     saves = [0, 1, 2]
     tracks = [None, 0, 1, 2]
     if tier == "thorough":
-        cfgs = [dict(outstep=o, save=s, track=t, verbose=v, name=nm, renorm=r, rf=rf, imp=imp, n=n, mod=mod)
-                for o, s, t, v, nm, r, rf, imp, n, mod in itertools.product(outsteps, saves, tracks, [0, 1], ["a", "b_other_name"], [-1, 0, 3], ["linear", "sin"], ["collimator", "none", "csr"], [16, 15], [0, 1])
-                if (imp == "collimator" and n == 16 and mod == 0) or (t in (None, 1) and nm == "a" and (n == 16 or v == 0) and (mod == 0 or (v == 0 and imp != "csr")))]
+        cfgs = [dict(outstep=o, save=s, track=t, verbose=v, name=nm, renorm=r, rf=rf, imp=imp, n=n, mod=mod, start=st)
+                for o, s, t, v, nm, r, rf, imp, n, mod, st in itertools.product(outsteps, saves, tracks, [0, 1], ["a", "b_other_name"], [-1, 0, 3], ["linear", "sin"], ["collimator", "none", "csr"], [16, 15], [0, 1], [0, 1])
+                if ((imp == "collimator" and n == 16 and mod == 0) or (t in (None, 1) and nm == "a" and (n == 16 or v == 0) and (mod == 0 or (v == 0 and imp != "csr"))))
+                and (st == 0 or (n == 16 and mod == 0 and nm == "a" and t in (None, 1) and imp != "csr"))]
     else:
         cfgs = []
-        for r, rf, imp, n, mod in [(0, "linear", "collimator", 16, 0), (3, "linear", "collimator", 16, 0), (-1, "sin", "collimator", 16, 0), (3, "linear", "none", 16, 0), (2, "sin", "csr", 16, 0),
-                                   (2, "linear", "csr", 15, 0), (0, "linear", "collimator", 16, 1), (-1, "sin", "none", 16, 1)]:
+        for key in [(0, "linear", "collimator", 16, 0), (3, "linear", "collimator", 16, 0), (-1, "sin", "collimator", 16, 0), (3, "linear", "none", 16, 0), (2, "sin", "csr", 16, 0),
+                                   (2, "linear", "csr", 15, 0), (0, "linear", "collimator", 16, 1), (-1, "sin", "none", 16, 1),
+                                   (0, "linear", "collimator", 16, 0, 1), (3, "sin", "none", 16, 0, 1)]:
+            r, rf, imp, n, mod = key[:5]
+            st = key[5] if len(key) > 5 else 0
             for o, s in itertools.product(outsteps, saves):                       # full cadence product
-                cfgs.append(dict(outstep=o, save=s, track=None, verbose=0, name="a", renorm=r, rf=rf, imp=imp, n=n, mod=mod))
+                cfgs.append(dict(outstep=o, save=s, track=None, verbose=0, name="a", renorm=r, rf=rf, imp=imp, n=n, mod=mod, start=st))
             for t in [0, 1, 2]:                                                   # single deviations
-                cfgs.append(dict(outstep=2, save=1, track=t, verbose=0, name="a", renorm=r, rf=rf, imp=imp, n=n, mod=mod))
-            cfgs.append(dict(outstep=2, save=1, track=None, verbose=1, name="a", renorm=r, rf=rf, imp=imp, n=n, mod=mod))
-            cfgs.append(dict(outstep=3, save=2, track=1, verbose=1, name="b_other_name", renorm=r, rf=rf, imp=imp, n=n, mod=mod))
+                cfgs.append(dict(outstep=2, save=1, track=t, verbose=0, name="a", renorm=r, rf=rf, imp=imp, n=n, mod=mod, start=st))
+            cfgs.append(dict(outstep=2, save=1, track=None, verbose=1, name="a", renorm=r, rf=rf, imp=imp, n=n, mod=mod, start=st))
+            cfgs.append(dict(outstep=3, save=2, track=1, verbose=1, name="b_other_name", renorm=r, rf=rf, imp=imp, n=n, mod=mod, start=st))
     # the reference of every physics key: every step written, every phase space saved
     refs = {}
     for k in sorted(set(phys_key(c) for c in cfgs)):
-        refs[k] = dict(outstep=1, save=1, track=None, verbose=0, name="ref", renorm=k[0], rf=k[1], imp=k[2], n=k[3], mod=k[4])
+        refs[k] = dict(outstep=1, save=1, track=None, verbose=0, name="ref", renorm=k[0], rf=k[1], imp=k[2], n=k[3], mod=k[4], start=k[5])
 
     def do(ic):
         i, c, rep = ic
